@@ -24,15 +24,21 @@ Inductive xout :=
 | XStop      (* the code (or the init code incl. the code deposit) runs to a normal end *)
 | XRevert    (* … ends in REVERT: state changes undone, leftover gas kept *)
 | XInvalid.  (* … aborts (invalid opcode, …): state changes undone, all gas consumed *)
+(** the three Ethereum transaction types (TxData implementations LegacyTx / AccessListTx / DynamicFeeTx) *)
+Inductive txty := TLegacy | TAccess | TDynamic.
 Record xinfo := {
   x_kind : xkind;
+  x_ty : txty;
+  x_raw : Z;      (* the price the sender named, NOT floored at the base fee: gasPrice (types 0, 1) / min(baseFee + tipCap, feeCap)
+                     (type 2).  The leaf's [price] is the EFFECTIVE one: max(base fee, x_raw) *)
   x_cap : Z;      (* NOMINAL wei per gas of the sender-balance check: gasPrice (legacy) / gasFeeCap (dynamic fee) *)
   x_intr : Z;     (* intrinsic gas: 21000 (+ 32000 for a creation) + calldata *)
   x_exec : Z;     (* gas the code needs to get to its end *)
   x_out : xout
 }.
 (** plain transfer to an account without code, legacy price [p] at least the base fee *)
-Definition x_transfer (p : Z) : xinfo := {| x_kind := XCall; x_cap := p; x_intr := 21000; x_exec := 0; x_out := XStop |}.
+Definition x_transfer (p : Z) : xinfo :=
+  {| x_kind := XCall; x_ty := TLegacy; x_raw := p; x_cap := p; x_intr := 21000; x_exec := 0; x_out := XStop |}.
 
 Inductive leaf :=
 | EthTx (from : addr) (nonce : nat) (gas price value : Z) (x : xinfo)
@@ -79,6 +85,7 @@ Definition BASE_FEE_WEI : Z := WEI.     (* evm.BASE_FEE_WEI: 1 unibi per gas *)
     max(baseFee, min(baseFee + tipCap, feeCap)) *)
 Definition eff_legacy (gas_price : Z) : Z := Z.max gas_price BASE_FEE_WEI.
 Definition eff_dynamic (fee_cap tip_cap : Z) : Z := Z.max BASE_FEE_WEI (Z.min (BASE_FEE_WEI + tip_cap) fee_cap).
+Definition raw_dynamic (fee_cap tip_cap : Z) : Z := Z.min (BASE_FEE_WEI + tip_cap) fee_cap.
 (** what keeper.VerifyFee makes the ante handler deduct for gas limit [g] at effective price [p]:
     WeiToNative(p × g) — or, if the code converted the price first, WeiToNative(p) × g *)
 Definition prepay (exact : bool) (g p : Z) : Z := if exact then (g * p) / WEI else (p / WEI) * g.
@@ -151,6 +158,11 @@ Record cfg := {
   e_gas : bool;             (* EthGasConsume: gas × price deducted up front *)
   fee_exact : bool;         (* keeper.VerifyFee: the deducted amount is WeiToNative(price × gasLimit) *)
   e_seq : bool;             (* EthIncrementSenderSequence: nonce = sequence, then sequence + 1 *)
+  (* per TxData implementation: which price the two sides of the gas accounting use *)
+  fee_floor : txty -> bool;    (* EffectiveFeeWei (what VerifyFee makes the ante handler DEDUCT) prices the gas limit at
+                                  max(base fee, named price) — false: at the named price as it is *)
+  refund_floor : txty -> bool; (* EffectiveGasPriceWeiPerGas (the price Keeper.RefundGas REFUNDS leftover gas at) is
+                                  max(base fee, named price) *)
   (* msg server, ApplyEvmMsg *)
   nonce_reset : bool;       (* StateDB.SetNonce(from, msg.Nonce()) before the EVM runs *)
   post_nonce_call : bool;   (* StateDB.SetNonce(from, msg.Nonce()+1) after evm.Call, whatever its result *)
@@ -179,6 +191,11 @@ Definition eth_exec (s : st) (from : addr) (gas value : Z) (x : xinfo) : xres :=
          | XInvalid => {| r_used := gas; r_ok := false; r_evm_nonce := bump |}
          end.
 
+(** the price the ante handler deducts the gas limit at / the msg server refunds leftover gas at, for a message
+    whose effective (floored) price is [p] *)
+Definition pay_price (c : cfg) (p : Z) (x : xinfo) : Z := if fee_floor c (x_ty x) then p else x_raw x.
+Definition refund_price (c : cfg) (p : Z) (x : xinfo) : Z := if refund_floor c (x_ty x) then p else x_raw x.
+
 Definition post_nonce (c : cfg) (k : xkind) : bool :=
   match k with XCall => post_nonce_call c | XCreate => post_nonce_create c end.
 
@@ -197,7 +214,7 @@ Definition leaf_run (c : cfg) (w : world) (s : st) (l : leaf) : option st :=
         let s1 := if r_evm_nonce r then set_seq s0 from (S (seq_of s0 from)) else s0 in
         let s2 := if post_nonce c (x_kind x) then set_seq s1 from (S nonce) else s1 in
         let s3 := if r_ok r then add_bal (add_bal s2 from (- value)) (w_sink w) value else s2 in
-        let refund := refund_of gas (r_used r) price in
+        let refund := refund_of gas (r_used r) (refund_price c price x) in
         if feecol s <? refund then None
         else Some (add_ran (add_fee (add_bal s3 from refund) (- refund)) l)
   | Send from =>
@@ -288,8 +305,8 @@ Fixpoint evm_admit (c : cfg) (ms : list msg) (s : st) : option st :=
   | [] => Some s
   | m :: r =>
       match eth_parts m with
-      | Some (a, n, g, p, _, _) =>
-          match evm_admit_one c s a n g p with Some s1 => evm_admit c r s1 | None => None end
+      | Some (a, n, g, p, _, x) =>
+          match evm_admit_one c s a n g (pay_price c p x) with Some s1 => evm_admit c r s1 | None => None end
       | None => None
       end
   end.
@@ -332,9 +349,18 @@ Definition run_history (c : cfg) (w : world) (s : st) (h : list tx) : st :=
 Definition guard_active (chain : list string) (name : string) (g : guard) (needs : list string) : bool :=
   mem name chain && g_found g && g_rejects g && forallb (fun t => mem t (g_tests g)) needs.
 
+(** generated per TxData implementation: (EffectiveFeeWei floored at the base fee?, EffectiveGasPriceWeiPerGas floored?) *)
+Definition txty_name (ty : txty) : string :=
+  match ty with TLegacy => "LegacyTx" | TAccess => "AccessListTx" | TDynamic => "DynamicFeeTx" end.
+Fixpoint price_fact (l : list (string * (bool * bool))) (ty : txty) : bool * bool :=
+  match l with
+  | [] => (false, false)
+  | (n, f) :: r => if String.eqb n (txty_name ty) then f else price_fact r ty
+  end.
+
 Definition cfg_of_facts (nonevm evm : list string) (x : ext_facts) (gp ga : guard) (wh : wasm_facts)
            (sgc : string) (registered_ext : list string) (eth_signers_recovered : bool) (fee_of_total : bool)
-           (apply_nonce : bool * bool * bool) : cfg :=
+           (apply_nonce : bool * bool * bool) (price_facts : list (string * (bool * bool))) : cfg :=
   {| nonevm_known := match route_of x NoExt with RouteNonEVM => true | _ => false end;
      evm_route := route_of x EvmExt;
      other_route := route_of x OtherExt;
@@ -356,6 +382,7 @@ Definition cfg_of_facts (nonevm evm : list string) (x : ext_facts) (gp ga : guar
      e_gas := mem N_ETH_GAS evm;
      fee_exact := fee_of_total;
      e_seq := mem N_ETH_INCR_SEQ evm;
+     fee_floor := fun ty => fst (price_fact price_facts ty); refund_floor := fun ty => snd (price_fact price_facts ty);
      nonce_reset := fst (fst apply_nonce); post_nonce_call := snd (fst apply_nonce); post_nonce_create := snd apply_nonce;
      wasm_signer := w_signer_is_contract wh;
      wasm_no_eth := w_refuses_eth wh |}.
@@ -365,6 +392,7 @@ Definition cfg_current : cfg :=
   {| nonevm_known := true; evm_route := RouteEVM; other_route := RouteReject; other_decodable := false;
      g_prevent := true; g_authz := true; g_authz_exec := true; g_authz_rec := false; vb_on := true; sig_on := true; sig_accepts_eth := false; signer_recovered := true;
      fee_on := true; seq_on := true; e_vb := true; e_sig := true; e_acc := true; e_gas := true; fee_exact := true; e_seq := true;
+     fee_floor := fun _ => true; refund_floor := fun _ => true;
      nonce_reset := true; post_nonce_call := true; post_nonce_create := true;
      wasm_signer := true; wasm_no_eth := true |}.
 
